@@ -1,3 +1,5 @@
 /- C10/C11 model (giscanner/annotationparser.py, message.py): umbrella import. -/
 import GIVerif.Model.AnnParse.Basic
 import GIVerif.Model.AnnParse.Tokenizer
+import GIVerif.Model.AnnParse.MessageLog
+import GIVerif.Model.AnnParse.Matchers
